@@ -138,7 +138,8 @@ static long waitfail_extras(int tier)
   return tier ? 0 : (long) ((ntriples[0] + 7) / 8) * 2 * NCB;
 }
 
-static long stop_n(int tier) { return stop_n_mode(0, tier) + waitfail_extras(tier); }
+#define NPREFAIL07 (NCB * 3)
+static long stop_n(int tier) { return stop_n_mode(0, tier) + waitfail_extras(tier) + NPREFAIL07; }
 
 static void decode(int m, int tier, long cfg, struct cfg *c)
 {
@@ -531,6 +532,20 @@ static void run_cfg(const char *prop_unused)
 static void c07_run(int tier, long cfg)
 {
   long nmain = stop_n_mode(0, tier);
+  if (cfg >= nmain + waitfail_extras(tier)) {
+    /* a handle whose first start (with a deadline) failed and whose second start has none: stop sequences that look at the deadline */
+    long v = cfg - nmain - waitfail_extras(tier);
+    memset(&C, 0, sizeof C);
+    C.prefail = 1;
+    C.cb = (int) (v % NCB);
+    v /= NCB;
+    static const int pol[3][6] = { { A_NOOP, A_NOOP, A_NOOP, 0, 0, 0 }, { A_WAIT, A_KILL, A_NOOP, -2, -1, 0 }, { A_WAIT, A_TERM, A_KILL, -2, 2, -1 } };
+    for (int i = 0; i < 3; i++) { C.a[i] = pol[v % 3][i]; C.t[i] = pol[v % 3][3 + i]; }
+    C.via = VIA_STOP;
+    C.is = IS_RUNNING;
+    run_cfg("C07");
+    return;
+  }
   if (cfg >= nmain) {
     long e = cfg - nmain, tr = (e / (2 * NCB)) * 8, v = e % (2 * NCB);
     memset(&C, 0, sizeof C);
